@@ -7,8 +7,8 @@ Core Lean only.  The same tree state as `Model/Tree.lean`; what is new is the st
 actor has its own exit program counter `CPc`, and a schedule (`List COp`) interleaves, one tree-lock
 region (or one lock-free statement) at a time,
 
-* `spawn`, `link c p`, `unlink c p`, `setStatus a st` by arbitrary outside threads (so `spawn_linked`
-  = `spawn; link; on refusal begin/xstep…`, any number of them, at any depth),
+* `spawn`, `link c p`, `linkStart c p`, `unlink c p`, `setStatus a st` by arbitrary outside threads (so
+  `spawn_linked` = `spawn; …; linkStart; on refusal begin/xstep…`, any number of them, at any depth),
 * `begin a kill`: `a`'s task leaves its message loop (kill path: `handle_signal` runs `terminate` first,
   BEFORE `Stopping` is published; every other cause goes straight to `cleanup`),
 * `xstep a`: the next statement of `a`'s exit, in the order the code has them
@@ -47,6 +47,8 @@ structure CState where
 inductive COp
   | spawn
   | link (c p : Nat)
+  /-- the link `start` makes for the actor it starts (`link_starting`: child refused only at `Stopping`+) -/
+  | linkStart (c p : Nat)
   | unlink (c p : Nat)
   | setStatus (a : Nat) (st : Status)
   | begin (a : Nat) (kill : Bool)
@@ -58,6 +60,7 @@ inductive TAct
   | nop
   | spawn
   | link (c p : Nat)
+  | linkStart (c p : Nat)
   | unlink (c p : Nat)
   | take (y : Nat)
   | setSt (a : Nat) (st : Status)
@@ -71,6 +74,7 @@ def applyAct (t : State) : TAct → State
   | .nop => t
   | .spawn => spawn t
   | .link c p => (link t c p).1
+  | .linkStart c p => (linkStart t c p).1
   | .unlink c p => unlink t c p
   | .take y => (takeChildren t y).1
   | .setSt a st => setStatus t a st
@@ -94,6 +98,7 @@ def xact (t : State) (a : Nat) : CPc → TAct × CPc
 def cact (g : CState) : COp → TAct
   | .spawn => .spawn
   | .link c p => .link c p
+  | .linkStart c p => .linkStart c p
   | .unlink c p => .unlink c p
   | .setStatus a st => if a < g.t.n ∧ st ≠ .stopped then .setSt a st else .nop
   | .begin _ _ => .nop
@@ -133,6 +138,8 @@ def escStep (g : CState) (op : COp) (c : Nat) : Bool :=
   match op with
   | .unlink c' p' => decide (c' = c) && decide (g.t.sup c = some p')
   | .link c' q => decide (c' = c) && (link g.t c q).2 &&
+      (match g.t.sup c with | some o => decide (o ≠ q) | none => false)
+  | .linkStart c' q => decide (c' = c) && (linkStart g.t c q).2 &&
       (match g.t.sup c with | some o => decide (o ≠ q) | none => false)
   | _ => false
 
